@@ -7,6 +7,7 @@ User callables are uninterpreted: FEXT(lambda), FINT(c, lambda), KT(c, lambda), 
 arbitrary vector solve(K, b).
 """
 import sys
+from fractions import Fraction
 import z3
 
 from ..core import run_check, CheckerError
@@ -16,6 +17,7 @@ from ..pysym import Interp, real, integer, Cond, to_z3, cond_z3, SymRaise
 from ..invloop import Vec, GhostList, InvariantWhile, maxabs, scalar_atom
 
 NRF = 'compmech/analysis/newton_raphson.py:_solver_NR'
+LS_CHECKED = True
 Q = 'compmech.analysis.newton_raphson._solver_NR'
 
 
@@ -54,7 +56,38 @@ def settings_symbolic(it):
     it.facts += [to_z3(s['initialInc']) > 0, to_z3(s['initialInc']) <= 1, to_z3(s['minInc']) > 0,
                  to_z3(s['maxInc']) >= to_z3(s['initialInc']), to_z3(s['absTOL']) > 0, to_z3(s['maxNumIter']) >= 2,
                  to_z3(s['max_iter_line_search']) >= 1, to_z3(s['compute_every_n']) >= 1, to_z3(s['too_slow_TOL']) > 0]
+    # ghost constant of the termination argument: a positive lower bound of every increment the load-step loop can start with
+    # (witness: min(initialInc, minInc, maxInc, 5e-4); its existence under the preconditions is a separate obligation)
+    s['mu_lb'] = real('mu_lb')
+    it.facts += mu_facts(s, to_z3(s['mu_lb']))
     return s
+
+
+def mu_facts(s, mu):
+    return [mu > 0, mu <= to_z3(s['initialInc']), mu <= to_z3(s['minInc']), mu <= to_z3(s['maxInc']), mu <= z3.RealVal('1/2000')]
+
+
+def check_mu_exists(led, it, s):
+    """the ghost lower bound is not vacuous: for all settings that meet the preconditions the witness satisfies its defining facts"""
+    import time
+    a, b, c = to_z3(s['initialInc']), to_z3(s['minInc']), to_z3(s['maxInc'])
+    m1 = z3.If(a < b, a, b)
+    m2 = z3.If(m1 < c, m1, c)
+    w = z3.If(m2 < z3.RealVal('1/2000'), m2, z3.RealVal('1/2000'))
+    sv = z3.Solver()
+    sv.set('timeout', 20000)
+    sv.add(a > 0, a <= 1, b > 0, c >= a)
+    sv.add(z3.Not(z3.And(*mu_facts(s, w))))
+    t0 = time.time()
+    r = sv.check()
+    led.solver_time('z3', time.time() - t0)
+    name = NRF + '/termination/positive-lower-bound-of-the-increment-exists'
+    if r == z3.unsat:
+        led.ok(name, NRF, backend='z3')
+    elif r == z3.sat:
+        led.fail(name, NRF, {'model': str(sv.model())}, backend='z3', signature='mu-witness')
+    else:
+        led.undecide(name, NRF, 'z3 unknown')
 
 
 def install_contracts(it):
@@ -63,7 +96,7 @@ def install_contracts(it):
     it.contracts['compmech.logger.warn'] = lambda itp, a, kw: None
 
 
-def explore_solver(led, modified, line_search, kT_initial):
+def explore_solver(led, modified, line_search, kT_initial, kappa=Fraction(2)):
     it = Interp()
     shims.install(it)
     install_contracts(it)
@@ -108,11 +141,37 @@ def explore_solver(led, modified, line_search, kT_initial):
             cne = z3.BoolVal(bool(cs.appended))
         L = z3.If(ne, last, z3.RealVal(0))
         return [('inc>0', inc > 0),
+                ('inc>=positive-lower-bound', inc >= to_z3(s['mu_lb'])),
                 ('total-inc==last-reported', total - inc == L),
                 ('total<=1', total <= 1),
                 ('last-reported-in-[0,1)', z3.And(L >= 0, z3.Implies(ne, z3.And(last > 0, last <= 1)))),
                 ('cs-and-increments-in-step', ne == cne),
                 ('max_total>=0', mt >= 0)]
+
+    # ---- ranking functions (termination).  Load steps: V = (1 - total) + kappa inc, kappa = 2 for the code as it is: a failed
+    # step gives total' = total - 0.7 inc, inc' = 0.3 inc, so V' = V - 0.7 inc; an accepted step gives inc' <= min(1.1 inc, 1 - total),
+    # total' = total + inc', so V' = V - 2 inc + inc' <= V - 0.9 inc.  inc >= mu at every loop head, V >= 0.  (Other growth /
+    # reduction factors need another weight kappa; body() tries the alternatives before it reports the clause as failed.)
+    def outer_var(itp, fr):
+        e = P.const(1) - fr.l['total'] + fr.l['inc'] * kappa
+        if '__V0' not in fr.l:
+            fr.l['__V0'] = e           # ghost local: value of the ranking function at the head of the load-step loop
+            fr.l['__kappa'] = kappa
+        return (e, s['mu_lb'] * Fraction(1, 20), P.const(0))
+
+    def inner_var(itp, fr):
+        return (s['maxNumIter'] + 1 - fr.l['iteration'], P.const(1), P.const(0))
+
+    def bis_var(itp, fr):
+        # the bisection loop repeats only while the reduced increment is still >= minInc: inc' = 0.3 inc <= inc - 0.7 minInc
+        return (fr.l['inc'], s['minInc'] * Fraction(6, 10), P.const(0))
+
+    def ls_inv(itp, fr):
+        k = to_z3(fr.l['iter_line_search'])
+        return [('0<=iter_line_search<max_iter_line_search', z3.And(k >= 0, k < to_z3(s['max_iter_line_search'])))]
+
+    def ls_var(itp, fr):
+        return (s['max_iter_line_search'] - fr.l['iter_line_search'], P.const(1), P.const(0))
 
     def inner_inv(itp, fr):
         conv = fr.l['converged']
@@ -127,11 +186,11 @@ def explore_solver(led, modified, line_search, kT_initial):
     if len(whiles) != 4:
         raise CheckerError('_solver_NR: expected 4 while loops (load steps, iterations, line search, bisection), found %d' % len(whiles))
     outer, inner, ls, bis = whiles
-    it.loop_modes[(Q, outer.lineno)] = InvariantWhile('load-step-loop', outer_inv, ghosts=(incs, cs), owned=('c',),
+    it.loop_modes[(Q, outer.lineno)] = InvariantWhile('load-step-loop', outer_inv, variant=outer_var, ghosts=(incs, cs), owned=('c',),
                                                       sorts={'c': Vec(('c',)), 'kT': Vec(('kT',)), 'kT_last': Vec(('kT',)), 'fext': Vec(('f',))})
-    it.loop_modes[(Q, inner.lineno)] = InvariantWhile('iteration-loop', inner_inv, sorts={'c': Vec(('c',)), 'kT': Vec(('kT',))})
-    it.loop_modes[(Q, ls.lineno)] = invloop.HavocLoop('line-search-loop', sorts={'c1': Vec(('c',)), 'c2': Vec(('c',)), 'fint1': Vec(('f',)), 'fint2': Vec(('f',)), 'R1': Vec(('f',)), 'R2': Vec(('f',)), 's1': real('s'), 's2': real('s'), 'eta_new': real('e')})
-    it.loop_modes[(Q, bis.lineno)] = InvariantWhile('bisection-loop', lambda itp, fr: outer_bis_inv(itp, fr, incs))
+    it.loop_modes[(Q, inner.lineno)] = InvariantWhile('iteration-loop', inner_inv, variant=inner_var, sorts={'c': Vec(('c',)), 'kT': Vec(('kT',))})
+    it.loop_modes[(Q, ls.lineno)] = InvariantWhile('line-search-loop', ls_inv, variant=ls_var) if LS_CHECKED else invloop.HavocLoop('line-search-loop', sorts={'c1': Vec(('c',)), 'c2': Vec(('c',)), 'fint1': Vec(('f',)), 'fint2': Vec(('f',)), 'R1': Vec(('f',)), 'R2': Vec(('f',)), 's1': real('s'), 's2': real('s'), 'eta_new': real('e')})
+    it.loop_modes[(Q, bis.lineno)] = InvariantWhile('bisection-loop', lambda itp, fr: outer_bis_inv(itp, fr, incs), variant=bis_var)
     holder = {}
 
     def at_return(itp, fr, rv):
@@ -183,8 +242,12 @@ def outer_bis_inv(itp, fr, incs):
         ne = z3.BoolVal(bool(incs.appended))
         last = to_z3(incs.last) if incs.appended else z3.RealVal(0)
     L = z3.If(ne, last, z3.RealVal(0))
-    return [('inc>0', inc > 0), ('total-inc==last-reported', total - inc == L), ('total<=1', total <= 1),
-            ('last-reported-in-[0,1)', z3.And(L >= 0, z3.Implies(ne, z3.And(last > 0, last <= 1))))]
+    out = [('inc>0', inc > 0), ('total-inc==last-reported', total - inc == L), ('total<=1', total <= 1),
+           ('last-reported-in-[0,1)', z3.And(L >= 0, z3.Implies(ne, z3.And(last > 0, last <= 1))))]
+    if '__V0' in fr.l:
+        # the ranking function of the enclosing load-step loop has not grown since that loop's head
+        out.append(('load-step-ranking-not-above-its-value-at-the-loop-head', 1 - total + to_z3(P.const(fr.l['__kappa'])) * inc <= to_z3(fr.l['__V0'])))
+    return out
 
 
 _RP = {}
@@ -275,20 +338,25 @@ def dynamic_grid():
     return r
 
 
-def discharge(led, it, res, tag):
+def is_termination(name):
+    return 'variant' in name or 'ranking' in name
+
+
+def evaluate(led, it, res, tag, only=None):
     seen = {}
-    n_end = 0
     for path, out in res:
         if out[0] == 'raise':
             e = out[1]
-            led.fail('%s[%s]/no-exception/%s' % (NRF, tag, e.tname), NRF, {'raises': e.tname, 'args': [str(a)[:100] for a in e.eargs],
-                                                                         'line': getattr(e.node, 'lineno', None)}, signature='raise:' + e.tname)
+            seen['%s[%s]/no-exception/%s' % (NRF, tag, e.tname)] = (3, 'raise', {'raises': e.tname, 'args': [str(a)[:100] for a in e.eargs],
+                                                                            'line': getattr(e.node, 'lineno', None)}, [])
             continue
         for ob in path.obligations:
             if ob[0] == 'nonzero-denominator':
                 continue          # numpy float64 division: inf/nan, no exception (assumption recorded)
             kind, label, goal, conds = ob
             name = '%s[%s]/%s' % (NRF, tag, label)
+            if only is not None and not only(name):
+                continue
             if kind == 'syntactic':
                 st = 'valid' if goal else 'invalid'
                 mdl, dt = None, 0.0
@@ -299,15 +367,73 @@ def discharge(led, it, res, tag):
             rank = {'valid': 0, 'unknown': 1, 'invalid': 2}[st]
             if prev is None or rank > prev[0]:
                 seen[name] = (rank, st, mdl, [repr(c)[:100] for c in conds][-8:])
+    return seen
+
+
+def discharge(led, seen):
     for name, (rank, st, mdl, conds) in sorted(seen.items()):
-        if st == 'valid':
+        if st == 'raise':
+            led.fail(name, NRF, mdl, signature='raise:' + mdl['raises'])
+        elif st == 'valid':
             led.ok(name, NRF, backend='z3')
         elif st == 'invalid':
-            rp = replay_last_factor() if 'last-load-factor' in name else dynamic_grid()
+            rp = replay_last_factor() if 'last-load-factor' in name else (replay_termination() if is_termination(name) else dynamic_grid())
             led.fail(name, NRF, {'z3_model': mdl, 'path_tail': conds}, backend='z3', signature=name.split('/', 1)[-1], replay=rp)
         else:
             led.undecide(name, NRF, str(mdl))
     return seen
+
+
+TERM = r"""
+import numpy as np, signal
+from scipy.sparse import csr_matrix
+from compmech.analysis import Analysis
+class Budget(Exception):
+    pass
+def on_alarm(*a):
+    raise Budget()
+signal.signal(signal.SIGALRM, on_alarm)
+K = csr_matrix(np.array([[1.]]))
+results = []
+for sched in payload["schedules"]:
+    state = {"step_calls": 0, "k": 0, "last_total": None, "steps": 0}
+    def fint(c, inc=1., silent=True, state=state, sched=sched):
+        # residual scripted per load step: outcome 'C' -> residual 0 (accepted at iteration 2), 'F' -> growing residual (diverges)
+        if state["last_total"] != inc:
+            state["last_total"] = inc; state["steps"] += 1; state["k"] = 0
+        state["k"] += 1
+        o = sched[(state["steps"] - 1) % len(sched)]
+        r = 0. if o == "C" else 10.**state["k"]
+        return inc*np.array([1.]) - r
+    an = Analysis(calc_fext=lambda inc=1., silent=True: inc*np.array([1.]), calc_k0=lambda silent=True: K, calc_fint=fint,
+                  calc_kT=lambda c, inc=1., silent=True: K)
+    an.line_search = False
+    for a, v in payload["settings"].items():
+        setattr(an, a, v)
+    signal.alarm(payload["seconds"])
+    try:
+        incs, cs = an.static(NLgeom=True, silent=True)
+        signal.alarm(0)
+        results.append({"schedule": sched, "terminated": True, "load_steps": state["steps"], "last": float(incs[-1]) if incs else None})
+    except Budget:
+        results.append({"schedule": sched, "terminated": False, "load_steps": state["steps"]})
+    finally:
+        signal.alarm(0)
+out = {"results": results, "not_terminated": [r["schedule"] for r in results if not r["terminated"]]}
+"""
+
+
+def replay_termination():
+    """real driver with scripted outcomes per load step (accepted / diverged) under a wall-clock budget per schedule"""
+    if 'term' in _RP:
+        return _RP['term']
+    from ..pyreplay import run_real
+    r = run_real(TERM, {'schedules': ['F', 'C', 'CF', 'CCF', 'CCCCCCCCCCCCF', 'FC', 'FFC'], 'settings': {}, 'seconds': 8})
+    r['reproduced'] = bool(r.get('not_terminated'))
+    r['input'] = ('1-dof problem, callables that script the outcome of every load step (C accepted, F diverged) periodically; schedules that did not '
+                  'finish within 8 s: %s' % (r.get('not_terminated'),))
+    _RP['term'] = r
+    return r
 
 
 def body(led):
@@ -316,19 +442,38 @@ def body(led):
     led.function(NRF)
     led.function('compmech/analysis/analysis.py:Analysis.__init__')
     total_paths = 0
+    first = True
     for modified in (True, False):
         for ls in (True, False):
             it, res, incs, cs, tag, s = explore_solver(led, modified, ls, True)
             total_paths += len(res)
-            discharge(led, it, res, tag)
+            seen = evaluate(led, it, res, tag)
             led.solver_time('z3-feasibility', it.solver_time)
+            bad_term = [n for n, (rk, st, m_, c_) in seen.items() if is_termination(n) and st != 'valid']
+            if bad_term and all('load-step' in n for n in bad_term):
+                # the weight of the increment in the ranking function depends on the growth / reduction factors of the code: try the others
+                for kappa in (Fraction(5, 4), Fraction(4), Fraction(8)):
+                    it2, res2, _i, _c, _t, _s = explore_solver(led, modified, ls, True, kappa=kappa)
+                    seen2 = evaluate(led, it2, res2, tag, only=is_termination)
+                    led.solver_time('z3-feasibility', it2.solver_time)
+                    term2 = {n: v for n, v in seen2.items() if is_termination(n)}
+                    if term2 and all(v[1] == 'valid' for v in term2.values()):
+                        seen = {n: v for n, v in seen.items() if not is_termination(n)}
+                        seen.update(term2)
+                        break
+            discharge(led, seen)
+            if first:
+                check_mu_exists(led, it, s)
+                first = False
     led.extra['paths'] = total_paths
     check_static(led)
     dyn = dynamic_grid()
     led.bounded_item('run-time contracts on the real driver over %s (%s runs): %s violations' % (dyn.get('input'), dyn.get('runs'), dyn.get('n_violations')))
     if dyn.get('n_violations') or dyn.get('raised'):
         led.fail('newton_raphson.py:_solver_NR/bounded-run-time-contracts', NRF, {'grid': dyn}, backend='run-time(bounded)', replay=dyn, signature='dynamic-grid')
-    led.extra['unchecked_clauses'] = ['termination of the load-step loop (no ranking function is machine-checked; the line-search loop body is over-approximated by havoc)',
+    led.assume('C09 termination: the user callables and solve() return; the settings meet the preconditions initialInc in (0,1], minInc > 0, '
+               'maxInc >= initialInc, maxNumIter >= 2, max_iter_line_search >= 1 (integers); floats are reals (a NaN residual is outside the model)')
+    led.extra['unchecked_clauses'] = [
                                      'linear problem reaches lambda=1 with the linear solution: bounded run-time stand-in only']
 
 
